@@ -1455,11 +1455,14 @@ impl<'a> Trial<'a> {
                 }
             },
             Step::BlobDrop { pick } => {
-                if !self.blob_hashes.is_empty() {
+                // among the chunks THIS store holds (the list also names chunks appended to
+                // receiving stores of bytes-form steps, which crash trials do not re-run)
+                let r = self.live.router();
+                let held: Vec<u64> = self.blob_hashes.iter().copied().filter(|h| r.blobs.get(&ChunkHash(*h)).is_some()).collect();
+                if !held.is_empty() {
                     // the hash stays in the list: the dump shows the dropped chunk as absent,
                     // and so must every copy of the store
-                    let h = self.blob_hashes[*pick as usize % self.blob_hashes.len()];
-                    let r = self.live.router();
+                    let h = held[*pick as usize % held.len()];
                     r.blobs.mark_garbage(&ChunkHash(h));
                     r.blobs.compact();
                     self.ctx.probe("blob_log_compacted");
